@@ -529,6 +529,21 @@ def check_counters(ctx: Context, rep, rule: str) -> None:
         writes = cfg.calls(lambda c, fn=fn: is_write(fn, c))
         incs = [n for n in cfg.nodes if n.kind == "stmt" and isinstance(
             n.ast, ast.AugAssign) and ast.unparse(n.ast.target).endswith(counter)]
+        if writes and not incs:
+            # the counter is set some other way: not a count of the writes
+            # that returned normally in this function
+            others = [n for n in cfg.nodes if n.kind == "stmt" and isinstance(
+                n.ast, (ast.Assign, ast.AnnAssign)) and any(
+                    ast.unparse(t).endswith(counter) for t in (
+                        n.ast.targets if isinstance(n.ast, ast.Assign)
+                        else [n.ast.target]))]
+            if others:
+                rep.ob(rule, False, loc=fn.loc(others[0].ast),
+                       where=fn.qualname, construct=short(others[0].ast, 70),
+                       message="the counter is not `+= 1` after the write "
+                       "returned: it is copied / computed from another "
+                       "source, which may count writes that were rejected")
+                continue
         if not writes or not incs:
             raise AnalysisError(f"{rule}: write/increment not found in {fq}")
         # increments reachable without a *normal* return of the write
@@ -554,6 +569,22 @@ def check_counters(ctx: Context, rep, rule: str) -> None:
                construct=f"{counter}: {len(n_after)} increment(s) after the "
                "write",
                message="every successful write is counted exactly once")
+        # ... and nothing that can fail sits between the write and its count:
+        # an exception there leaves an example stored but not counted
+        from sa.rules.common import trivial_call as _tc
+        for w in writes:
+            between = cfg.reachable(
+                [m for m, lab in w.succ if lab == "next"], avoiding=incs,
+                follow=lambda a, b, lab: lab not in ("exc", "raise"))
+            risky = [n for n in between if n.kind == "call" and
+                     not _tc(ctx, fn, n.ast)]
+            rep.ob(rule, not risky, loc=fn.loc(risky[0].ast) if risky else
+                   fn.loc(w.ast), where=fn.qualname,
+                   construct=(short(risky[0].ast, 60) if risky else
+                              "write -> count, nothing fallible between"),
+                   message="a call between the successful write and the "
+                   "increment of the counter can raise: the example is stored "
+                   "but not counted (the shard then takes one too many)")
 
 
 _SB = "src/sedpack/io/shard/shard_writer_base.py"
